@@ -543,3 +543,178 @@ func mayBeNilLeaf(v ssa.Value, env map[ssa.Value]ssa.Value, depth int) bool {
 	}
 	return true
 }
+
+// TableRows expands the arguments of a call made inside a range over a local
+// table — a slice (or array) literal of structs, each argument being a field
+// of the loop's element — into one argument list per row of the table: the
+// call stands for that many calls.  ok is false when the arguments are not of
+// that shape (or the table is used in any other way).
+func TableRows(args []ssa.Value) (rows [][]ssa.Value, ok bool) {
+	// the element: a struct value loaded from the table, read field by field (directly, or after being copied
+	// into the loop variable's cell)
+	var elem ssa.Value
+	fields := make([]int, len(args))
+	for i, a := range args {
+		var x ssa.Value
+		switch f := a.(type) {
+		case *ssa.Field:
+			x, fields[i] = f.X, f.Field
+		case *ssa.UnOp:
+			fa, isFA := f.X.(*ssa.FieldAddr)
+			if f.Op != token.MUL || !isFA {
+				return nil, false
+			}
+			cell, isCell := fa.X.(*ssa.Alloc)
+			if !isCell {
+				return nil, false
+			}
+			var whole []ssa.Value
+			for _, u := range Users(cell) {
+				switch y := u.(type) {
+				case *ssa.Store:
+					if y.Addr != ssa.Value(cell) {
+						return nil, false
+					}
+					whole = append(whole, y.Val)
+				case *ssa.FieldAddr:
+					for _, u2 := range Users(y) {
+						if ld, isLd := u2.(*ssa.UnOp); !isLd || ld.Op != token.MUL {
+							if _, isDbg := u2.(*ssa.DebugRef); !isDbg {
+								return nil, false
+							}
+						}
+					}
+				case *ssa.DebugRef:
+				default:
+					return nil, false
+				}
+			}
+			if len(whole) != 1 {
+				return nil, false
+			}
+			x, fields[i] = whole[0], fa.Field
+		default:
+			return nil, false
+		}
+		if elem != nil && x != elem {
+			return nil, false
+		}
+		elem = x
+	}
+	ld, isLd := elem.(*ssa.UnOp)
+	if !isLd || ld.Op != token.MUL {
+		return nil, false
+	}
+	ia, isIA := ld.X.(*ssa.IndexAddr)
+	if !isIA {
+		return nil, false
+	}
+	var arr *ssa.Alloc
+	switch x := ia.X.(type) {
+	case *ssa.Slice:
+		arr, _ = x.X.(*ssa.Alloc)
+		// the slice itself is only ranged over
+		for _, u := range Users(x) {
+			switch y := u.(type) {
+			case *ssa.IndexAddr, *ssa.DebugRef:
+			case *ssa.Call:
+				if b, isB := y.Call.Value.(*ssa.Builtin); !isB || b.Name() != "len" {
+					return nil, false
+				}
+			default:
+				return nil, false
+			}
+		}
+	case *ssa.Alloc:
+		arr = x
+	}
+	if arr == nil {
+		return nil, false
+	}
+	at, isArr := arr.Type().Underlying().(*types.Pointer).Elem().Underlying().(*types.Array)
+	if !isArr {
+		return nil, false
+	}
+	cells := make([]map[int]ssa.Value, at.Len())
+	for i := range cells {
+		cells[i] = map[int]ssa.Value{}
+	}
+	// fieldStores collects "<base>.f = v" for a struct built in place at base
+	fieldStores := func(base ssa.Value, into map[int]ssa.Value, allowLoad bool) bool {
+		for _, u := range Users(base) {
+			switch y := u.(type) {
+			case *ssa.FieldAddr:
+				for _, u3 := range Users(y) {
+					st, isSt := u3.(*ssa.Store)
+					if !isSt || st.Addr != ssa.Value(y) {
+						if _, isDbg := u3.(*ssa.DebugRef); isDbg {
+							continue
+						}
+						return false
+					}
+					if _, dup := into[y.Field]; dup {
+						return false
+					}
+					into[y.Field] = st.Val
+				}
+			case *ssa.UnOp:
+				if !allowLoad || y.Op != token.MUL {
+					return false
+				}
+			case *ssa.DebugRef:
+			case *ssa.Store:
+				if y.Addr != base {
+					return false
+				}
+			default:
+				return false
+			}
+		}
+		return true
+	}
+	for _, u := range Users(arr) {
+		switch x := u.(type) {
+		case *ssa.Slice, *ssa.DebugRef:
+		case *ssa.IndexAddr:
+			if x == ia {
+				continue
+			}
+			k, isC := ConstInt(x.Index)
+			if !isC || k < 0 || k >= at.Len() {
+				return nil, false
+			}
+			// the row is built in place, or in a local composite that is then copied into the slot
+			copied := false
+			for _, u2 := range Users(x) {
+				if st, isSt := u2.(*ssa.Store); isSt && st.Addr == ssa.Value(x) {
+					src, isLoad := st.Val.(*ssa.UnOp)
+					if !isLoad || src.Op != token.MUL {
+						return nil, false
+					}
+					lit, isLit := src.X.(*ssa.Alloc)
+					if !isLit || copied || !fieldStores(lit, cells[k], true) {
+						return nil, false
+					}
+					copied = true
+				}
+			}
+			if !copied && !fieldStores(x, cells[k], false) {
+				return nil, false
+			}
+		default:
+			return nil, false
+		}
+	}
+	for _, row := range cells {
+		var vals []ssa.Value
+		for _, f := range fields {
+			v, has := row[f]
+			if !has {
+				return nil, false // a field left at its zero value: not expanded
+			}
+			vals = append(vals, v)
+		}
+		rows = append(rows, vals)
+	}
+	return rows, len(rows) > 0
+}
